@@ -7,7 +7,7 @@
 From Coq Require Import ZArith Reals List Bool QArith.
 From DK Require Import Num NumR NumQ Vec.
 From DK.Model Require Import Leaf Projection.
-From DK.Proofs Require Import RVec VecAlg C18Proofs.
+From DK.Proofs Require Import RVec VecAlg C18Proofs C18Cols.
 Import ListNotations.
 Local Open Scope R_scope.
 
@@ -115,6 +115,20 @@ Theorem C18_list_columns_are_rows_of_the_transpose : forall (tol : R) mi (rs : l
         (fun t => POk (transpose (match rs with r0 :: _ => rlen r0 | [] => 0%nat end) t)) \/
   list_project (rproject tol mi) rs false (transpose (length rs) m) = PValueError.
 Proof. exact list_project_cols. Qed.
+
+Theorem C18_list_columns : forall tol mi (rs : list (region R)) n m, 0 <= tol -> rs <> [] ->
+  List.Forall (fun r => rwf r /\ rlen r = n) rs -> mshape n (length rs) m ->
+  exists m', list_project (rproject tol mi) rs true m = POk m' /\ mshape n (length rs) m' /\
+    List.Forall2 (fun r col => rmem_tol tol r col) rs (transpose (length rs) m') /\
+    (forall Y, mshape n (length rs) Y -> List.Forall2 (fun r col => rmem r col) rs (transpose (length rs) Y) ->
+               mdist2 m m' <= mdist2 m Y) /\
+    (List.Forall2 (fun r col => rmem r col) rs (transpose (length rs) m) -> m' = m).
+Proof. exact list_project_columns. Qed.
+Theorem C18_transpose_involutive : forall a b (m : list (list R)), mshape a b m -> transpose a (transpose b m) = m.
+Proof. exact transpose_involutive. Qed.
+Theorem C18_distance_rowwise_is_columnwise : forall a b (m m' : list (list R)), mshape a b m -> mshape a b m' ->
+  mdist2 (transpose b m) (transpose b m') = mdist2 m m'.
+Proof. exact mdist2_transpose. Qed.
 
 (* ---- Intersection: the two short cuts ---- *)
 Theorem C18_intersection_first_shortcut : forall pa pb ia ib maxiter (x ra : list R),
